@@ -490,5 +490,5 @@ def samples(res, scs, mons):
 
 RULE = ('random concurrent client programs over GoChannel (buffer 0/1/3, persistent on/off, blocking on/off, 1-2 topics, 1-3 publishers with 1-3 calls of 1-3 messages, '
         '1-4 subscribers with behaviours ack / nack-then-ack / metadata-mutating / slow / leave-unsettled / cancel-after-k (draining or not) / late subscribe, 1-3 concurrent Close callers, '
-        'Publish+Subscribe after Close) with seeded yields at every hook, plus 14 forced overlaps (park/release at hook points); '
+        'Publish+Subscribe after Close) with seeded yields at every hook, plus 18 forced overlaps (park/release at hook points); '
         'non-trivial = more than 60 stamped events; distinct by configuration, forced overlap and size of the replayed label sequence.')
